@@ -402,7 +402,7 @@ class StyleProperties:
     def from_model(cls, xml_element, model_value):
       xml_element.set(
         f"{{{cls.ns}}}{cls.local_name}",
-        f"{model_value}"
+        utils.to_ttml_number(model_value)
       )
 
 
@@ -435,7 +435,7 @@ class StyleProperties:
 
     @classmethod
     def from_model(cls, xml_element, model_value):
-      xml_element.set(f"{{{cls.ns}}}{cls.local_name}", f"{model_value}")
+      xml_element.set(f"{{{cls.ns}}}{cls.local_name}", utils.to_ttml_number(model_value))
 
 
   class Origin(StyleProperty):
@@ -682,7 +682,7 @@ class StyleProperties:
 
     @classmethod
     def from_model(cls, xml_element, model_value: float):
-      xml_element.set(f"{{{cls.ns}}}{cls.local_name}", f"{model_value}%")
+      xml_element.set(f"{{{cls.ns}}}{cls.local_name}", f"{utils.to_ttml_number(model_value)}%")
 
 
   class ShowBackground(StyleProperty):
